@@ -33,16 +33,16 @@ type Sweep struct {
 	EntryDeadline map[string]time.Duration
 	// OnAbandon replaces the fixture of a store-touching entry point (set by the harness around such sweeps)
 	OnAbandon func()
-	pending  *Pending
-	idx      int
-	replay   *ReplayCase
-	hung     map[string]bool
-	Calls    int64
-	Panics   int64
-	stop     bool
-	perEntry map[string]int64
-	ranCase  bool
-	samples  int
+	pending   *Pending
+	idx       int
+	replay    *ReplayCase
+	hung      map[string]bool
+	Calls     int64
+	Panics    int64
+	stop      bool
+	perEntry  map[string]int64
+	ranCase   bool
+	samples   int
 }
 
 func NewSweep(r *ev.Run, prop string) *Sweep {
